@@ -18,6 +18,10 @@ import (
 	"verif/h/gen"
 	"verif/h/hx"
 	"verif/h/oracle"
+
+	"go/types"
+
+	"github.com/goplus/gogen"
 )
 
 // ---- C18: independent packages can be built concurrently without interference ------------------
@@ -35,14 +39,58 @@ func c18Build(src string, xgo bool) (out string, errText string) {
 	if err != nil {
 		return "", "parse: " + err.Error()
 	}
-	res := drive.Build(fset, []*ast.File{f}, map[string][]byte{"p.go": []byte(src)}, drive.Options{Importer: oracle.NewImporter(), XGo: xgo, PkgPath: "main"})
+	res := drive.Build(fset, []*ast.File{f}, map[string][]byte{"p.go": []byte(src)}, drive.Options{Importer: oracle.NewImporter(), XGo: xgo, PkgPath: "main",
+		Setup: func(d *drive.Driver) {
+			// Every package extends its own builtin-type tables, the way a front end registers extra
+			// methods (the XGo configuration does it for string): what one package registers must stay
+			// in that package, and registering must not touch anything another goroutine uses.
+			lenFn := types.Universe.Lookup("len")
+			for _, typ := range []types.Type{types.NewSlice(types.Typ[types.Int]), types.NewChan(types.SendRecv, types.Typ[types.Int]), types.Typ[types.String], types.NewSlice(types.Typ[types.String]), types.Typ[types.Float64]} {
+				ti := d.Pkg.BuiltinTI(typ)
+				if ti == nil {
+					continue
+				}
+				ti.AddMethods(&gogen.BuiltinMethod{Name: "VerifLen", Fn: lenFn})
+			}
+		}})
 	if !res.Accepted() {
 		return "", res.ErrText()
 	}
 	return res.Output[""], ""
 }
 
+// c18LeakProbe: a method registered on a builtin type in one package must not exist in another.
+func c18LeakProbe() (sig, msg string) {
+	for _, typ := range []types.Type{types.NewSlice(types.Typ[types.Int]), types.NewChan(types.SendRecv, types.Typ[types.Int]), types.Typ[types.String], types.NewSlice(types.Typ[types.String]), types.Typ[types.Int]} {
+		a := gogen.NewPackage("", "a", &gogen.Config{Importer: oracle.NewImporter()})
+		if ti := a.BuiltinTI(typ); ti != nil {
+			ti.AddMethods(&gogen.BuiltinMethod{Name: "VerifOnlyA", Fn: types.Universe.Lookup("len")})
+		} else {
+			continue
+		}
+		b := gogen.NewPackage("", "b", &gogen.Config{Importer: oracle.NewImporter()})
+		found := func() (found bool) {
+			defer func() {
+				if e := recover(); e != nil {
+					found = false // "no such member" is reported by panic or error
+				}
+			}()
+			cb := b.NewFunc(nil, "f", nil, nil, false).BodyStart(b)
+			cb.NewVar(typ, "x")
+			kind, err := cb.VarVal("x").Member("VerifOnlyA", 0, gogen.MemberFlagVal)
+			return err == nil && kind != gogen.MemberInvalid
+		}()
+		if found {
+			return "builtin-method-leak", fmt.Sprintf("a method added to the builtin-type table of %v in package a is visible in package b", typ)
+		}
+	}
+	return "", ""
+}
+
 func c18Run(c *c18Case) (sig, msg string) {
+	if sig, msg := c18LeakProbe(); sig != "" {
+		return sig, msg
+	}
 	n := len(c.Programs)
 	seq := make([]string, n)
 	seqErr := make([]string, n)
@@ -114,6 +162,8 @@ func TestC18(t *testing.T) {
 			r.Fail(t, c, sig, "%s", msg)
 		}
 		r.Nontrivial(fmt.Sprint(hx.Hash64(fmt.Sprint(c.Programs))))
-		r.Sample(func() any { return map[string]any{"programs": n, "gomaxprocs": c.Procs, "first_program_bytes": len(c.Programs[0])} })
+		r.Sample(func() any {
+			return map[string]any{"programs": n, "gomaxprocs": c.Procs, "first_program_bytes": len(c.Programs[0])}
+		})
 	})
 }
